@@ -251,56 +251,71 @@ Definition total_of (f : alloc_info -> N) (allocs : list (N * alloc_info)) : N :
 
 (** * [compute_stats] *)
 
-Definition compute_stats (fixed dbg : bool) (sv : list (N * N)) (inp : inputs) : res stats :=
-  let durs := in_durs inp in
-  let ssize := in_size inp in
+(** The [f64] part: one [StatsSet<f64>] per figure [f] of an allocation info,
+    [total] being the sum of the figure over all recorded infos. *)
+Definition column (fixed : bool) (inp : inputs) (sv mids : list (N * N)) (total_count : N)
+           (f : option alloc_info -> N) (total : N) : stats_set xq :=
   let allocs := in_allocs inp in
-  let sample_count := N.of_nat (length durs) in
-  (* iter_count(): sample_size as u64 * len as u64 *)
-  do total_count <- mul64 dbg ssize sample_count;
-  do total_duration <- sum128 dbg 0 durs;
-  (* checked_div(..).unwrap_or_default() *)
-  let mean_duration := if total_count =? 0 then 0 else total_duration / total_count in
-  do mids <- slice_middle sv;
-  do min_duration <- match hd_error sv with
-                     | None => Ok 0
-                     | Some s => checked_div (snd s) ssize
-                     end;
-  do max_duration <- match last_error sv with
-                     | None => Ok 0
-                     | Some s => checked_div (snd s) ssize
-                     end;
-  do median_duration <- match mids with
-                        | [] => Ok 0
-                        | _ => do sum <- sum128 dbg 0 (map snd mids);
-                               do avg <- checked_div sum (N.of_nat (length mids));
-                               checked_div avg ssize
-                        end;
-  do counts <- map_res (fun ci => kind_stats fixed ci sv mids) (in_counters inp);
   let info_f := sample_alloc_info allocs (hd_error sv) in
   let info_l := sample_alloc_info allocs (last_error sv) in
   let info_m0 := sample_alloc_info allocs (nth_error mids 0) in
   let info_m1 := sample_alloc_info allocs (nth_error mids 1) in
-  let ssz := xq_of_N (if fixed then N.max ssize 1 else ssize) in
+  let ssz := xq_of_N (if fixed then N.max (in_size inp) 1 else in_size inp) in
   let tcf := xq_of_N (if fixed then N.max total_count 1 else total_count) in
   let medn := xq_of_N (N.max (N.of_nat (length mids)) 1) in
-  let column (f : option alloc_info -> N) (total : N) : stats_set xq :=
-    {| fastest := per_size (f info_f) ssz;
-       slowest := per_size (f info_l) ssz;
-       median := med_entry (f info_m0) (f info_m1) medn ssz;
-       mean := xq_div (xq_of_N total) tcf |} in
-  Ok {| st_sample_count := sample_count mod 2 ^ 32;
-        st_iter_count := total_count;
-        st_time := {| fastest := min_duration; slowest := max_duration;
-                      median := median_duration; mean := mean_duration |};
-        st_max_count := column max_count_of (total_of ai_max_count allocs);
-        st_max_size := column max_size_of (total_of ai_max_size allocs);
-        st_tallies :=
-          map (fun op =>
-                 (column (fun o => t_count (tally_of op o)) (total_of (fun i => t_count (ai_tally op i)) allocs),
-                  column (fun o => t_size (tally_of op o)) (total_of (fun i => t_size (ai_tally op i)) allocs)))
-              all_ops;
-        st_counts := counts |}.
+  {| fastest := per_size (f info_f) ssz;
+     slowest := per_size (f info_l) ssz;
+     median := med_entry (f info_m0) (f info_m1) medn ssz;
+     mean := xq_div (xq_of_N total) tcf |}.
+
+(** The [Stats { .. }] expression at the end of [compute_stats]. *)
+Definition assemble (fixed : bool) (inp : inputs) (sv mids : list (N * N))
+           (total_count min_duration max_duration median_duration mean_duration : N)
+           (counts : list (option (stats_set N))) : stats :=
+  let allocs := in_allocs inp in
+  let col := column fixed inp sv mids total_count in
+  {| st_sample_count := N.of_nat (length (in_durs inp)) mod 2 ^ 32;
+     st_iter_count := total_count;
+     st_time := {| fastest := min_duration; slowest := max_duration;
+                   median := median_duration; mean := mean_duration |};
+     st_max_count := col max_count_of (total_of ai_max_count allocs);
+     st_max_size := col max_size_of (total_of ai_max_size allocs);
+     st_tallies :=
+       map (fun op =>
+              (col (fun o => t_count (tally_of op o)) (total_of (fun i => t_count (ai_tally op i)) allocs),
+               col (fun o => t_size (tally_of op o)) (total_of (fun i => t_size (ai_tally op i)) allocs)))
+           all_ops;
+     st_counts := counts |}.
+
+(** [sorted_samples.first().map(|s| s.duration / sample_size).unwrap_or_default()] *)
+Definition end_duration (o : option (N * N)) (ssize : N) : res N :=
+  match o with
+  | None => Ok 0
+  | Some s => checked_div (snd s) ssize
+  end.
+
+Definition median_duration_of (dbg : bool) (mids : list (N * N)) (ssize : N) : res N :=
+  match mids with
+  | [] => Ok 0
+  | _ => do sum <- sum128 dbg 0 (map snd mids);
+         do avg <- checked_div sum (N.of_nat (length mids));
+         checked_div avg ssize
+  end.
+
+Definition compute_stats (fixed dbg : bool) (sv : list (N * N)) (inp : inputs) : res stats :=
+  let durs := in_durs inp in
+  let ssize := in_size inp in
+  (* iter_count(): sample_size as u64 * len as u64 *)
+  do total_count <- mul64 dbg ssize (N.of_nat (length durs));
+  do total_duration <- sum128 dbg 0 durs;
+  (* checked_div(..).unwrap_or_default() *)
+  let mean_duration := if total_count =? 0 then 0 else total_duration / total_count in
+  do mids <- slice_middle sv;
+  do min_duration <- end_duration (hd_error sv) ssize;
+  do max_duration <- end_duration (last_error sv) ssize;
+  do median_duration <- median_duration_of dbg mids ssize;
+  do counts <- map_res (fun ci => kind_stats fixed ci sv mids) (in_counters inp);
+  Ok (assemble fixed inp sv mids total_count min_duration max_duration median_duration mean_duration counts).
 
 (** * The value stored for a per-input counter ([benchmark/mod.rs:750-760, 875-886])
 
